@@ -164,12 +164,55 @@ def part(args):
     return n, res, classes
 
 
+def part_history(args):
+    """two datagrams from one sender to one service object: a damaged one (every truncation of a request,
+    a request followed by garbage, a length field announcing more than is there), then a complete request"""
+    own_sid, own_major = args
+    loop = VLoop().install()
+    res = []
+    n = 0
+    try:
+        first = refcodec.enc_someip(own_sid, 2, 7, 8, own_major, 0x00, 0, b"abcdef")
+        damaged = [first[:k] for k in range(1, len(first))]
+        damaged += [first + first[:k] for k in (1, 8, 15, 16, 20)]
+        damaged += [first[:4] + refcodec.tobe(8 + extra, 4) + first[8:] for extra in (7, 100, 0x7FFFFFF0)]
+        second = (own_sid, 1, 0x11, 0x22, own_major, 0x00, 0, b"xy")
+        for d in damaged:
+            for other_first in (False, True):
+                s = make(loop, own_sid, own_major)
+                try:
+                    s.datagram_received(d, ADDR, False)
+                    if other_first:
+                        s.datagram_received(d, ("192.0.2.78", 40001), False)
+                except Exception as e:  # noqa: BLE001
+                    res.append(("no-exception", type(e).__name__, f"damaged datagram raised {type(e).__name__}",
+                                dict(own=(own_sid, own_major), history=d, fields=second, multicast=False)))
+                    continue
+                loop.settle()
+                s.transport.sent.clear()
+                s.calls.clear()
+                exc = None
+                try:
+                    s.datagram_received(refcodec.enc_someip(*second), ADDR, False)
+                except Exception as e:  # noqa: BLE001
+                    exc = type(e).__name__
+                loop.settle()
+                n += 1
+                for clause, disc, detail in judge(s, own_sid, own_major, second, False, exc):
+                    res.append((clause, "after-damaged-datagram-" + disc, detail + f" (after a damaged datagram of {len(d)} bytes from the same sender)",
+                                dict(own=(own_sid, own_major), history=d, fields=second, multicast=False)))
+    finally:
+        loop.dispose()
+    return n, res, {}
+
+
 def check(ctx):
     own_sid = 0x1000 + ctx.seed % 0xE000
     own_major = 1 + ctx.seed % 200
     parts = [(own_sid, own_major, s, ctx.thorough, ctx.seed) for s in (own_sid, own_sid ^ 0x0101)]
     # split further by doing each service in one worker; the product per part is ~87k cases
     out = core.pmap(part, parts, 1)
+    out += core.pmap(part_history, [(own_sid, own_major)], 1)
     n = sum(o[0] for o in out)
     viols = []
     classes = {}
@@ -201,6 +244,22 @@ def check(ctx):
 def replay(ctx, body):
     case = body["case"]
     own = case["own"]
+    if "history" in case:
+        loop = VLoop().install()
+        try:
+            s = make(loop, own[0], own[1])
+            s.datagram_received(case["history"], ADDR, False)
+            loop.settle()
+            s.transport.sent.clear()
+            s.calls.clear()
+            s.datagram_received(refcodec.enc_someip(*case["fields"]), ADDR, False)
+            loop.settle()
+            res = judge(s, own[0], own[1], tuple(case["fields"]), False, None)
+        finally:
+            loop.dispose()
+        for r in res:
+            print("FAILS:", r)
+        return 1 if res else 0
     res = run_case(own[0], own[1], tuple(case["fields"]), bool(case["multicast"]))
     res2 = run_case(own[0], own[1], tuple(case["fields"]), bool(case["multicast"]))
     if res != res2:
